@@ -38,9 +38,16 @@
 //        num_photon_done == terminated events; every active buffer is
 //        referenced by exactly one of {queued task, task held by a parked
 //        fiber, subgrid output slot}; every active task is queued or held.
-//  (iii) the iteration ends within a budget of atomic operations that is
-//        generous relative to the work (deterministic, so a budget hit is a
-//        failure, reported with the state of the accounting).
+//  (iii) bounded termination (the run is deterministic, so a budget hit is a
+//        failure, reported with the state of the accounting): at most 50 x a
+//        generous estimate of the number of tasks the packets can need; no
+//        more than 5e7 atomic operations without any task being started; no
+//        packet enters a subgrid three times in exactly the same state (its
+//        traversal is a deterministic function of that state, so it would be
+//        handed round for ever).  The schedule is FAIR: run lengths between
+//        scheduling points are geometrically distributed (seeded by the case);
+//        strictly periodic schedules can starve a spin lock for ever, which is
+//        a property of spin locks, not a defect.
 //  (iv)  iteration k+1 starts clean (same checks before it starts).
 #include "Abundances.hpp"
 #include "AtomicValue.hpp"
@@ -718,7 +725,9 @@ struct Sim {
     // a packet whose complete state (subgrid, side of entry, position,
     // direction, remaining optical depth) recurs can never terminate: its
     // traversal is a deterministic function of that state
-    if (seen_states.size() < 3000000) {
+    // (not for packets that start inside: launches and re-emissions are new
+    // packets, and two injected packets may be identical)
+    if (din != TRAVELDIRECTION_INSIDE && seen_states.size() < 3000000) {
       for (size_t ip = 0; ip < sz && ip < PHOTONBUFFER_SIZE; ++ip) {
         const PhotonPacket &pp = buffer[ip];
         const CoordinateVector<> x = pp.get_position(), d = pp.get_direction();
@@ -1188,9 +1197,17 @@ struct Sim {
         const double chain = diffuse == 3 ? 10. : (diffuse == 2 ? 1.6 : 1.06);
         const double hops = (double)(g.ns[0] + g.ns[1] + g.ns[2]);
         const bool periodic = g.per[0] || g.per[1] || g.per[2];
-        const double boxes = periodic ? 1. + 1. / std::max(tau_min, 1.e-3) : 1.;
+        // optical depth of one box crossing along the shortest side, through
+        // the most transparent material
+        const double smin = std::min(g.side[0], std::min(g.side[1], g.side[2]));
+        const double smax = std::max(g.side[0], std::max(g.side[1], g.side[2]));
+        const double tau_box = std::max(tau_min, 1.e-3) * smin / smax;
+        const double boxes = periodic ? 1. + 3. / tau_box : 1.;
         expected_tasks =
             (double)_number_of_photons * chain * (2. + hops * boxes) + 100.;
+        for (size_t k = 0; k < n_injected; ++k)
+          expected_tasks +=
+              chain * (2. + hops * (periodic ? 1. + (3. + inj_tau[k]) / tau_box : 1.));
         task_budget = (uint64_t)(50. * expected_tasks);
         stall_budget = 50000000;
         tasks_iter = 0;
@@ -1243,10 +1260,26 @@ struct Sim {
         in_check = true;
         const State s = state();
         in_check = false;
-        note(fmt("no task was started during %llu atomic operations although "
-                 "the iteration has not ended (normal: at least 50 times "
-                 "fewer): the threads wait for each other for ever [",
-                 (unsigned long long)stall_budget) +
+        const uint64_t term = s.absorbed + s.escaped + s.not_reemitted;
+        std::string why;
+        if (s.active_tasks == 0 && s.active_buffers == 0)
+          why = s.done == _number_of_photons
+                    ? "" 
+                    : fmt("nothing is left to do, but num_photon_done %llu can "
+                          "never become the %zu requested packets (%llu "
+                          "termination events): a packet was lost or "
+                          "miscounted; ", (unsigned long long)s.done,
+                          _number_of_photons, (unsigned long long)term);
+        else if (s.active_tasks == 0)
+          why = fmt("%zu buffer(s) hold packets but no task will ever process "
+                    "them; ", s.active_buffers);
+        else
+          why = "tasks exist but none can be started (a lock is never "
+                "released, or a task is in no queue); ";
+        note("the iteration never ends: " + why +
+             fmt("no task was started during %llu atomic operations (the "
+                 "longest wait on the unchanged code is at least 20 times "
+                 "shorter) [", (unsigned long long)stall_budget) +
              show(s, _number_of_photons) + "]");
       }
       if (!failed)
@@ -1302,7 +1335,11 @@ VCase gen_case() {
     per[0] = per[1] = per[2] = 1;
   const bool periodic = per[0] || per[1] || per[2];
   // ---- geometry
-  const int gmode = vr::weighted({4, 3, 3});
+  // 0 dyadic, anchor 0; 1 dyadic, box straddles 0 / far from 0; 2 arbitrary;
+  // 3 nearly cubic cells (two faces are crossed almost simultaneously by a
+  //   packet that travels along a diagonal)
+  const int gmode = vr::weighted({4, 3, 3, 2});
+  const double near_eps = vr::pick(std::vector< double >{1.e-8, 1.e-11, 1.e-14, 1.e-15, 2.3e-16, 2.3e-16});
   double cell[3], anchor[3], side[3];
   static const std::vector< double > dy = {0.25, 0.5, 1., 2.};
   const double c0 = vr::pick(dy);
@@ -1311,6 +1348,9 @@ VCase gen_case() {
     if (gmode == 2) {
       cell[a] = vr::uni(0.3, 3.);
       anchor[a] = vr::uni(-2., 1.) * cell[a] * nc[a];
+    } else if (gmode == 3) {
+      cell[a] = c0 * (1. + (double)vr::irange(-1, 2) * near_eps);
+      anchor[a] = vr::coin(0.5) ? 0. : -0.5 * cell[a] * nc[a];
     } else {
       cell[a] = cubic ? c0 : vr::pick(dy);
       anchor[a] = gmode == 0 ? 0. : -(double)vr::irange(0, nc[a]) * cell[a];
@@ -1444,7 +1484,7 @@ VCase gen_case() {
   // ---- schedule: per-thread stride (every stride-th atomic operation of a
   // thread is a scheduling point) + choice pattern (prefix or cyclic)
   static const std::vector< int64_t > strides = {1, 1, 1, 2, 3, 5, 8, 17, 64, 257};
-  static const std::vector< int64_t > long_strides = {1, 3, 17, 257, 2000, 20000};
+  static const std::vector< int64_t > long_strides = {1, 3, 17, 257, 2000, 5000};
   std::vector< int64_t > st;
   const bool same = vr::coin(0.4);
   const int64_t s0 = vr::pick(long_strides);
@@ -1603,19 +1643,25 @@ int main(int argc, char **argv) {
   props.push_back(
       {"photon_loop", 3000, gen_case, o_loop,
        "cells 2..6 per axis, 1..3 subgrids per axis (tiny subgrids frequent), "
-       "periodicity only with positive density, density palettes tau 0.1..30 "
-       "across the box incl. opaque/transparent/empty/ultra-opaque regions, "
-       "1-3 point sources (interior, exactly on subgrid faces/edges/corners, "
-       "within 2 ulp of them), copy level 0..2, diffuse field off or fixed "
-       "re-emission probability 0.05/0.364/0.9, 1..1500 packets (199/200/201/"
-       "400 frequent), 1-2 iterations, 2-4 logical threads, schedule = "
-       "per-thread stride + choice pattern at atomic-operation granularity. "
-       "Non-trivial: >=2 threads executed tasks, >=2 subgrids, packets not a "
-       "multiple of 200, at least one full buffer handed over or one premature "
-       "launch",
+       "periodicity only with positive density, geometry dyadic / straddling "
+       "0 / arbitrary / nearly cubic, density palettes tau 0.1..30 across the "
+       "box incl. opaque/transparent/empty/ultra-opaque regions, 1-3 point "
+       "sources (interior, exactly on subgrid faces/edges/corners, within 2 "
+       "ulp of them), optionally 1-12 injected packets with degenerate "
+       "directions (axis, face diagonal, body diagonal) on cell lattice "
+       "points, copy level 0..2 via create_copies, diffuse field off or fixed "
+       "re-emission probability 0.05/0.364/0.9, 1..1500 packets (1/199/200/"
+       "201/400 frequent), 1-2 iterations reusing all containers, 2-4 logical "
+       "threads, pools above the need, schedule = choice pattern + per-thread "
+       "mean run length between scheduling points at atomic-operation "
+       "granularity (fair, seeded by the case). Non-trivial: >=2 threads "
+       "executed tasks, >=2 subgrids, packets not a multiple of 200, at least "
+       "one full buffer handed over or one premature launch",
        {{"premature-launch-happened", 0.3},
-        {"buffer-overflow(full-buffer-handed-over)", 0.05},
+        {"buffer-overflow(full-buffer-handed-over)", 0.04},
         {"premature-launch-of-edge-or-corner-buffer", 0.1},
+        {"premature-launch-of-EDGE_X_PP-buffer", 0.005},
+        {"traffic-through-a-P-edge-or-corner", 0.02},
         {"buffer-exactly-full", 0.003},
         {"reemission-happened", 0.2},
         {"copies", 0.2},
